@@ -195,9 +195,10 @@ func pkgOf(fn string) string {
 
 func runCall(c Case) *h.Result {
 	res := &h.Result{NonTrivial: outsideDoc(c.Fn, c.Args), Classes: []string{"pkg:" + pkgOf(c.Fn), "arity:" + strconv.Itoa(len(c.Args))}}
-	if why, denied := denyList[c.Fn]; denied {
-		res.Skip = "deny-list"
-		_ = why
+	if notDriven(c) {
+		// deny list or endless by definition: never executed (the enumerations and generators leave these out)
+		res.NonTrivial = false
+		res.Classes = []string{"not-driven"}
 		return res
 	}
 	if tag := excludedBy(c); tag != "" {
@@ -313,7 +314,7 @@ func drive(t *testing.T, p h.Prop[Case], units [][]Case, workers int) bool {
 				}
 				var live []Case
 				for _, c := range units[i] {
-					if _, denied := denyList[c.Fn]; !denied && excludedBy(c) == "" {
+					if excludedBy(c) == "" {
 						live = append(live, c)
 					}
 				}
@@ -377,7 +378,7 @@ func workersFor() int {
 var rapidRunner = &runner{}
 
 func runViaShared(c Case) *h.Result {
-	if _, denied := denyList[c.Fn]; !denied && excludedBy(c) == "" {
+	if !notDriven(c) && excludedBy(c) == "" {
 		rapidRunner.exec([]Case{c})
 	}
 	return runCall(c)
@@ -395,14 +396,17 @@ func TestC09(t *testing.T) {
 	h.Assume("functions on the committed deny list (terminate, block by design, terminal, servers/sockets/programs, environment, interpreter globals) are not driven")
 	h.Assume("a fault seen in a shared worker counts only when the same single call faults alone in a fresh worker")
 
-	fns, perPkg := allFunctions()
+	all, perPkg := allFunctions()
 	nd := 0
-	for _, f := range fns {
+	var fns []FuncEntry
+	for _, f := range all {
 		if _, d := denyList[f.Name]; d {
 			nd++
+			continue
 		}
+		fns = append(fns, f)
 	}
-	h.Note("functions: %d exported in %d packages %v; %d on the deny list; pool of %d objects", len(fns), len(perPkg), perPkg, nd, len(pool))
+	h.Note("functions: %d exported in %d packages %v; %d on the deny list (not driven); pool of %d objects", len(all), len(perPkg), perPkg, nd, len(pool))
 
 	if part("reader") {
 		testReader(t)
@@ -432,6 +436,9 @@ func testCalls(t *testing.T, fns []FuncEntry) {
 		n := rapid.IntRange(3, 5).Draw(rt, "n")
 		for i := 0; i < n; i++ {
 			c.Args = append(c.Args, names[rapid.IntRange(0, len(names)-1).Draw(rt, "a")])
+		}
+		if endlessByDefinition(c) {
+			c.Args[1] = "fix1" // a true end test
 		}
 		return c
 	}
@@ -486,7 +493,9 @@ func testCalls(t *testing.T, fns []FuncEntry) {
 					if !h.Thorough() && (fi+ai+bi)%16 != slice {
 						continue
 					}
-					cs = append(cs, Case{Fn: f.Name, Mode: m, Args: []string{a, b}})
+					if c := (Case{Fn: f.Name, Mode: m, Args: []string{a, b}}); !endlessByDefinition(c) {
+						cs = append(cs, c)
+					}
 				}
 				if h.Thorough() {
 					u2 = append(u2, cs)
